@@ -67,4 +67,98 @@ mod verif_kani {
         kani::cover!(r && m > mtu);
         kani::cover!(!r && m == mtu);
     }
+
+    /// Builds `related` (<= 2 graphs of <= 2 entities) and `standalone` (<= 2 entities); entity index = running number.
+    fn any_layout() -> (Vec<Vec<EntityMutations>>, Vec<EntityMutations>, usize) {
+        let mut related = Vec::new();
+        let mut next: u32 = 0;
+        let graphs: usize = kani::any();
+        kani::assume(graphs <= 2);
+        let mut g = 0;
+        while g < graphs {
+            let n: usize = kani::any();
+            kani::assume(n <= 2);
+            let mut v = Vec::new();
+            let mut k = 0;
+            while k < n {
+                v.push(entity_mutations(next));
+                next += 1;
+                k += 1;
+            }
+            related.push(v);
+            g += 1;
+        }
+        let s: usize = kani::any();
+        kani::assume(s <= 2);
+        let mut standalone = Vec::new();
+        let mut k = 0;
+        while k < s {
+            standalone.push(entity_mutations(next));
+            next += 1;
+            k += 1;
+        }
+        (related, standalone, next as usize)
+    }
+
+    /// Chunking: one chunk per relation graph (all its entities, in order), then one chunk per standalone entity.
+    /// A chunk is the unit that is never split across messages.
+    #[kani::proof]
+    #[kani::unwind(6)]
+    fn vk_u07_chunks_iter() {
+        let (related, standalone, total) = any_layout();
+        let chunks = EntityChunks::new(&related, &standalone);
+        let mut seen: u32 = 0; // entities are numbered in layout order: chunks must enumerate 0, 1, 2, ...
+        let mut n_chunks = 0usize;
+        for chunk in chunks.iter() {
+            if n_chunks < related.len() {
+                assert!(chunk.len() == related[n_chunks].len()); // a whole graph, never a part of it
+            } else {
+                assert!(chunk.len() == 1); // a single entity
+            }
+            for m in chunk {
+                assert!(m.entity == Entity::from_raw(seen));
+                seen += 1;
+            }
+            n_chunks += 1;
+        }
+        assert!(n_chunks == related.len() + standalone.len());
+        assert!(seen as usize == total);
+        kani::cover!(related.len() == 2 && standalone.len() == 2 && total == 6);
+        kani::cover!(total == 0);
+        core::mem::forget((related, standalone));
+    }
+
+    /// `iter_flatten(a..b)` yields exactly the entities of chunks a..b, in order: what one message carries.
+    #[kani::proof]
+    #[kani::unwind(8)]
+    fn vk_u07_chunks_flatten() {
+        let (related, standalone, _total) = any_layout();
+        let chunks = EntityChunks::new(&related, &standalone);
+        let n = related.len() + standalone.len();
+        let a: usize = kani::any();
+        let b: usize = kani::any();
+        kani::assume(a <= b && b <= n); // requires (debug_assert in the function)
+        // expected: entities of chunks a..b in layout order = a contiguous run of entity numbers
+        let mut first: u32 = 0;
+        let mut count: u32 = 0;
+        let mut i = 0;
+        while i < n {
+            let len = if i < related.len() { related[i].len() as u32 } else { 1 };
+            if i < a {
+                first += len;
+            } else if i < b {
+                count += len;
+            }
+            i += 1;
+        }
+        let mut k: u32 = 0;
+        for m in chunks.iter_flatten(a..b) {
+            assert!(m.entity == Entity::from_raw(first + k));
+            k += 1;
+        }
+        assert!(k == count);
+        kani::cover!(a < related.len() && b > related.len());
+        kani::cover!(a == b);
+        core::mem::forget((related, standalone));
+    }
 }
